@@ -11,7 +11,11 @@ for d in sorted(glob.glob('/verif/seeded/*/')):
     name = os.path.basename(d.rstrip('/'))
     if sel and not any(name.startswith(s) for s in sel):
         continue
-    prop = json.load(open(d + 'meta.json'))['property']
+    meta = json.load(open(d + 'meta.json'))
+    prop = meta['property']
+    # the Kani units of a property take minutes and are serialised by a lock: they are run only for the stored changes that a Kani
+    # obligation reports (the Verus units, the probes and the standing checks always run)
+    needs_kani = any('kani' in str(x) for x in (meta.get('caught_by') or []))
     subprocess.run(['git', '-C', '/repo', 'worktree', 'remove', '--force', wt], capture_output=True)
     shutil.rmtree(wt, ignore_errors=True)
     subprocess.run(['git', '-C', '/repo', 'worktree', 'add', '--detach', wt, 'HEAD', '-q'], check=True, capture_output=True)
@@ -22,7 +26,7 @@ for d in sorted(glob.glob('/verif/seeded/*/')):
             bad.append(name)
             continue
         q = subprocess.run(['./check', prop, '--no-evidence', '--no-twin'], cwd='/verif', capture_output=True, text=True,
-                           env=dict(os.environ, VERIF_REPO=wt))
+                           env=dict(os.environ, VERIF_REPO=wt, **({} if needs_kani else {'VERIF_SKIP_KANI': '1'})))
         viol = [l for l in q.stdout.split('\n') if l.startswith('VIOLATION')]
         print(f'{name}: check {prop} exit {q.returncode}, {len(viol)} obligation(s) reported' + ('' if q.returncode == 1 else '   <-- NOT CAUGHT'))
         if q.returncode != 1:
